@@ -174,7 +174,9 @@ pub fn jubjub_tasks(t: &mut Tasks, al_ext: &Arc<Alpha<JjExt>>, al_sub: &Arc<Alph
         for pa in &a.pts {
             for (pn, k) in &pats {
                 let bytes: [u8; 32] = arr(&big::to_le(k, 32));
-                let expect = cv.mul(&pa.m, &(k % big::pow2(252)));
+                let kk = k % big::pow2(252);
+                // oracle: affine law inside the prime subgroup, validated ladder outside
+                let expect = if pa.in_sub { cv.mul(&pa.m, &kk) } else { cv.mul_fast(&pa.m, &kk) };
                 out.eval(&format!("multiply_bits:{pn}"), !cv.is_id(&pa.m));
                 match catch(|| (JjExt::to_m(&pa.g.to_niels().multiply_bits(&bytes)), JjExt::to_m(&pa.g.to_affine().to_niels().multiply_bits(&bytes)))) {
                     Err(e) => v(&mut out, ty, "multiply_bits", "panic", format!("panicked: {e}"), json!({"P": pa.name, "bits": pn})),
